@@ -30,6 +30,21 @@
 (* is "diverge".  Both tests are exact (pigeon-hole: direct dictionaries    *)
 (* nest finitely, so an unbounded run must repeat a reference).             *)
 (*                                                                          *)
+(* Depth.  A cycle guard ends cycles; it does not bound the depth of an     *)
+(* ACYCLIC chain.  The machine stack is a resource: it holds StackFrames    *)
+(* frames of a recursive walker.  Every recursive walker therefore carries  *)
+(* its depth (Len of its stack; s.depth for collect_resources) and a call   *)
+(* that would need frame StackFrames + 1 is "overflow" with class *.depth.  *)
+(* A walker with an explicit budget (OutlineDepthLimit, NameTreeDepthLimit, *)
+(* a loop instead of the tail recursion on Parent) returns "err" / keeps    *)
+(* depth 0 instead; "as it is" (Dev_RsrcRecursion, Dev_FirstDepth,          *)
+(* Dev_KidsDepth = TRUE) there is no budget and TLC refutes TotalInv by a   *)
+(* behaviour whose stack grows with the chain (MC_Queries scenario          *)
+(* "chain").  ChainOutcomeS is the closed form of the walkers' outcome on   *)
+(* the chain families as a function of the length; MC_Queries checks it     *)
+(* against the automata for every length in ChainLens, Trace_Queries uses   *)
+(* it for the recorded families of 10 .. 100 000 links.                     *)
+(*                                                                          *)
 (* The Dev_ switches (DESIGN 2.9) re-create, when TRUE, one confirmed       *)
 (* deviation each; s.cls names the class of the bad outcome — it is the     *)
 (* signature of the finding.  All nine deviations are repaired in lopdf     *)
@@ -56,7 +71,16 @@ CONSTANTS DerefLimit,        \* Document::DEREF_LIMIT (128 in the code)
           Dev_NdKeyStr,      \* get_named_destinations: key.as_str().unwrap()
           Dev_NdValIndex,    \* get_named_destinations: val[0], val[1]
           Dev_CsIndex,       \* get_page_images: array[0] of the ColorSpace array
-          Dev_SizeHint       \* PageTreeIter::size_hint: sum of the /Count entries, unclamped
+          Dev_SizeHint,      \* PageTreeIter::size_hint: sum of the /Count entries, unclamped
+          StackFrames,       \* frames of a recursive walker the machine stack can hold
+          OutlineDepthLimit, \* budget of the First recursion (used when Dev_FirstDepth = FALSE)
+          NameTreeDepthLimit,\* budget of the Kids recursion  (used when Dev_KidsDepth = FALSE)
+          Dev_RsrcRecursion, \* collect_resources calls itself once per Parent link (no depth bound)
+          Dev_FirstDepth,    \* get_outlines: no bound on the depth of the First recursion
+          Dev_KidsDepth      \* get_named_destinations: no bound on the depth of the Kids recursion
+
+ASSUME /\ StackFrames \in Nat /\ OutlineDepthLimit \in Nat /\ NameTreeDepthLimit \in Nat
+       /\ OutlineDepthLimit + 1 < StackFrames /\ NameTreeDepthLimit + 1 < StackFrames
 
 Mk(k, n, s, e, d) == [k |-> k, n |-> n, s |-> s, e |-> e, d |-> d]
 None      == Mk("none", 0, "", <<>>, <<>>)
@@ -152,6 +176,10 @@ RsrcStep(doc, s) ==
        ELSE IF p.n \in s.seen THEN [s EXCEPT !.pc = "err", !.ids = ids1]          \* ReferenceCycle
        ELSE LET pd == GetDictionary(doc, p.n)
             IN IF pd = None THEN [s EXCEPT !.pc = "err", !.ids = ids1, !.seen = s.seen \cup {p.n}]
+               ELSE IF ~Dev_RsrcRecursion                                          \* repaired: a loop, no frame per link
+                    THEN [s EXCEPT !.node = pd, !.ids = ids1, !.seen = s.seen \cup {p.n}]
+               ELSE IF s.depth + 1 > StackFrames                                   \* collect_resources(parent_dict, ..)?
+                    THEN [s EXCEPT !.pc = "overflow", !.cls = "resources.parent.depth", !.ids = ids1]
                ELSE [s EXCEPT !.node = pd, !.ids = ids1, !.seen = s.seen \cup {p.n}, !.depth = s.depth + 1]
 
 RECURSIVE RsrcRun(_, _)
@@ -184,13 +212,17 @@ NdStep(doc, s) ==
                     adv == [top EXCEPT !.i = top.i + 1]
                     kd  == IF kid.k = "ref" THEN GetDictionary(doc, kid.n) ELSE None
                     enter == Append(Append(rest, adv), NdFrame(kd, kid.n))
+                    \* the callee runs at depth Len(s.stack) (the root call at depth 0) and needs one more frame
+                    Call(s2) == IF ~Dev_KidsDepth /\ Len(s.stack) > NameTreeDepthLimit THEN Fail("err", "")
+                                ELSE IF Len(s.stack) + 1 > StackFrames THEN Fail("overflow", "nameddest.kids.depth")
+                                ELSE s2
                 IN IF kd = None THEN SetTop(adv)
                    ELSE IF Dev_KidsCycle
                         THEN IF \E j \in 1..Len(s.stack) : s.stack[j].via = kid.n
                              THEN Fail("overflow", "nameddest.kids.cycle")
-                             ELSE [s EXCEPT !.stack = enter]
+                             ELSE Call([s EXCEPT !.stack = enter])
                         ELSE IF kid.n \in s.seen THEN SetTop(adv)                \* repaired: visited set
-                             ELSE [s EXCEPT !.stack = enter, !.seen = s.seen \cup {kid.n}]
+                             ELSE Call([s EXCEPT !.stack = enter, !.seen = s.seen \cup {kid.n}])
     ELSE
         LET names == DGet(top.node, "Names")
         IN IF names = None THEN Pop
@@ -381,15 +413,19 @@ OutStep(doc, s) ==
                      ELSE None
             via   == IF fv.k = "ref" THEN fv.n ELSE -1
             enter == Append(Append(rest, f), OlFrame(child, via))
+            \* the callee runs at depth Len(s.stack) (the top-level call at depth 0) and needs one more frame
+            Call(s2) == IF ~Dev_FirstDepth /\ Len(s.stack) > OutlineDepthLimit THEN Fail("err", "")
+                        ELSE IF Len(s.stack) + 1 > StackFrames THEN Fail("overflow", "outline.first.depth")
+                        ELSE s2
         IN IF fv = None THEN SetTop(f)
            ELSE IF child = None THEN Fail("err", "")
-           ELSE IF via = -1 THEN [s EXCEPT !.stack = enter]
+           ELSE IF via = -1 THEN Call([s EXCEPT !.stack = enter])
            ELSE IF Dev_FirstCycle
                 THEN IF \E j \in 1..Len(s.stack) : s.stack[j].via = via
                      THEN Fail("overflow", "outline.first.cycle")
-                     ELSE [s EXCEPT !.stack = enter]
+                     ELSE Call([s EXCEPT !.stack = enter])
                 ELSE IF via \in s.seen THEN SetTop(f)                          \* repaired: visited set
-                     ELSE [s EXCEPT !.stack = enter, !.seen = s.seen \cup {via}]
+                     ELSE Call([s EXCEPT !.stack = enter, !.seen = s.seen \cup {via}])
     ELSE                                          \* node = match self.get_dict_in_dict(node, b"Next") { Ok(n) => n, Err(_) => break }
         LET nv  == DGet(top.node, "Next")
             nd  == GetDictInDict(doc, top.node, "Next")
@@ -483,6 +519,104 @@ ImgStep(doc, s) ==
 
 RECURSIVE ImgRun(_, _)
 ImgRun(doc, s) == IF s.pc \in Final THEN s ELSE ImgRun(doc, ImgStep(doc, s))
+
+-----------------------------------------------------------------------------
+(* Long acyclic chains.  ChainDoc(fam, L): objects 1 catalog, 2 page-tree root, 3 the page, 4 the  *)
+(* content stream, 5 the outline dictionary, 6 a resources dictionary, 7 a font, 8 (refchain) the  *)
+(* target, 9 unused; the chain is objects 10 .. 9+L.  Acyclic, nothing dangles, every value has    *)
+(* the expected kind.  (The harness builds the same families for L up to 100 000.)                 *)
+
+ChainHead == 10
+ChainFams == {"parent", "first", "next", "kids", "kidswide", "pagekids", "contents", "refchain"}
+
+DB(pairs) == Dict(SelectSeq(pairs, LAMBDA p : p[2] # None))
+DestFit   == Arr(<<Ref(3), Name("Fit")>>)
+NamePair  == Arr(<<Str("t"), Dict(<<<<"D", DestFit>>>>)>>)
+
+ChainDoc(fam, L) ==
+    LET last == ChainHead + L - 1
+        nxt(i) == IF i < last THEN Ref(i + 1) ELSE None
+        fontres == Dict(<<<<"Font", Dict(<<<<"F1", Ref(7)>>>>)>>>>)
+        node(i) ==
+            CASE fam = "parent"   -> DB(<<<<"Type", Name("Pages")>>, <<"Resources", Ref(6)>>, <<"Parent", nxt(i)>>>>)
+              [] fam = "first"    -> DB(<<<<"Title", Str("a")>>, <<"Dest", DestFit>>, <<"First", nxt(i)>>>>)
+              [] fam = "next"     -> DB(<<<<"Title", Str("a")>>, <<"Dest", DestFit>>, <<"Next", nxt(i)>>>>)
+              [] fam = "kids"     -> IF i < last THEN DB(<<<<"Kids", Arr(<<Ref(i + 1)>>)>>>>) ELSE DB(<<<<"Names", NamePair>>>>)
+              [] fam = "kidswide" -> IF i = ChainHead THEN DB(<<<<"Kids", Arr([j \in 1..(L - 1) |-> Ref(ChainHead + j)])>>>>)
+                                     ELSE DB(<<<<"Names", NamePair>>>>)
+              [] fam = "pagekids" -> DB(<<<<"Type", Name("Pages")>>, <<"Count", IntV(1)>>,
+                                          <<"Kids", IF i < last THEN Arr(<<Ref(i + 1), Ref(3)>>) ELSE Arr(<<Ref(3)>>)>>>>)
+              [] fam = "refchain" -> IF i < last THEN Ref(i + 1) ELSE Ref(8)
+              [] OTHER            -> Null
+        cat  == DB(<<<<"Type", Name("Catalog")>>, <<"Pages", Ref(2)>>,
+                     <<"Outlines", IF fam = "refchain" THEN Ref(ChainHead) ELSE Ref(5)>>,
+                     <<"Names", IF fam \in {"kids", "kidswide"} THEN Dict(<<<<"Dests", Ref(ChainHead)>>>>) ELSE None>>,
+                     <<"Dests", IF fam = "refchain" THEN Ref(ChainHead) ELSE None>>>>)
+        root == DB(<<<<"Type", Name("Pages")>>, <<"Count", IntV(1)>>,
+                     <<"Kids", Arr(<<IF fam = "pagekids" THEN Ref(ChainHead) ELSE Ref(3)>>)>>>>)
+        page == DB(<<<<"Type", Name("Page")>>,
+                     <<"Parent", IF fam \in {"parent", "refchain"} THEN Ref(ChainHead) ELSE Ref(2)>>,
+                     <<"Contents", IF fam = "contents" THEN Arr([j \in 1..L |-> Ref(4)])
+                                   ELSE IF fam = "refchain" THEN Ref(ChainHead) ELSE Ref(4)>>,
+                     <<"Resources", IF fam = "refchain" THEN Ref(ChainHead) ELSE fontres>>>>)
+        outl == DB(<<<<"Type", Name("Outlines")>>, <<"First", IF fam \in {"first", "next"} THEN Ref(ChainHead) ELSE None>>>>)
+        font == Dict(<<<<"Type", Name("Font")>>, <<"Subtype", Name("Type1")>>, <<"Encoding", Name("WinAnsiEncoding")>>>>)
+        tgt  == Dict(<<<<"Type", Name("Pages")>>, <<"Font", Dict(<<<<"F1", Ref(7)>>>>)>>, <<"Title", Str("a")>>,
+                       <<"Dest", DestFit>>, <<"Names", NamePair>>>>)
+    IN [objs |-> [i \in 1..last |->
+                    CASE i = 1 -> cat [] i = 2 -> root [] i = 3 -> page [] i = 4 -> Stream(<<>>, "text")
+                      [] i = 5 -> outl [] i = 6 -> fontres [] i = 7 -> font
+                      [] i = 8 -> (IF fam = "refchain" THEN tgt ELSE Null) [] i = 9 -> Null
+                      [] OTHER -> node(i)],
+        root |-> Ref(1)]
+
+\* The links of family fam a recursive walker w started on object id still has below it: the depth it reaches.
+\* (id 0 = the document-level call; the page is object 3.)
+ChainDepthOf(fam, L, w, id) ==
+    LET below == IF id >= ChainHead THEN L - (id - ChainHead) ELSE L      \* chain objects from id on
+    IN CASE fam = "parent" /\ w = "rsrc" /\ id = 3 -> L                  \* page: one call per chain node
+         [] fam = "parent" /\ w = "rsrc" /\ id >= ChainHead -> below - 1 \* a chain node: its own call is depth 0
+         [] fam = "first" /\ w \in {"outl", "toc"} -> L - 1              \* node 10+j runs at depth j
+         [] fam = "kids" /\ w \in {"outl", "toc"} -> L - 1
+         [] fam = "kids" /\ w = "nd" /\ id >= ChainHead -> below - 1
+         [] fam = "pagekids" /\ w = "nd" /\ id >= ChainHead -> below     \* any dictionary may be handed in as a name tree:
+         [] fam = "pagekids" /\ w = "nd" /\ id = 2 -> L + 1               \* the page-tree Kids are walked down to the page
+         [] fam = "kidswide" /\ w \in {"nd", "outl", "toc"} -> IF L >= 2 THEN 1 ELSE 0   \* wide, not deep
+         [] fam = "refchain" /\ w = "rsrc" -> IF L > DerefLimit THEN 0 ELSE 1   \* page -> (chain) -> object 8
+         [] OTHER -> 0
+
+\* Closed form of the walkers' outcome on ChainDoc(fam, L), for a machine stack of sf frames.
+ChainOutcomeS(fam, L, w, id, sf) ==
+    LET d    == ChainDepthOf(fam, L, w, id)
+        OK   == [pc |-> "ok", cls |-> ""]
+        ERR  == [pc |-> "err", cls |-> ""]
+        Rec(dev, limit, cls) ==                 \* a recursion reaching depth d: callee depth k needs k <= limit and frame k+1 <= sf
+            IF ~dev /\ d > limit THEN ERR
+            ELSE IF d + 1 > sf THEN [pc |-> "overflow", cls |-> cls]
+            ELSE OK
+    IN CASE fam = "refchain" ->              \* get_dictionary(10) follows L references, dereference(10 0 R) L + 1
+                IF w = "deref" THEN (IF L + 1 > DerefLimit THEN ERR ELSE OK)
+                ELSE IF w \in {"rsrc", "outl", "toc"} THEN (IF L > DerefLimit THEN ERR ELSE OK)
+                ELSE OK
+         [] w = "rsrc" -> IF Dev_RsrcRecursion /\ d > sf THEN [pc |-> "overflow", cls |-> "resources.parent.depth"] ELSE OK
+         [] w \in {"outl", "toc"} /\ fam = "first" -> Rec(Dev_FirstDepth, OutlineDepthLimit, "outline.first.depth")
+         [] w \in {"outl", "toc", "nd"} /\ fam \in {"kids", "kidswide", "pagekids"} -> Rec(Dev_KidsDepth, NameTreeDepthLimit, "nameddest.kids.depth")
+         [] OTHER -> OK
+
+ChainOutcome(fam, L, w, id) == ChainOutcomeS(fam, L, w, id, StackFrames)
+
+\* sizes of the results on the page (object 3): resource ids collected, content streams listed
+ChainRsrcN(fam, L) == IF fam = "parent" THEN L ELSE IF fam = "refchain" THEN 1 ELSE 0
+ChainContN(fam, L) == IF fam = "contents" THEN L ELSE IF fam = "refchain" THEN 0 ELSE 1
+
+\* the greatest depth the walker reaches on the chain (stack frames beyond the first / s.depth)
+ChainMaxDepth(fam, L, w, id) ==
+    LET d == ChainDepthOf(fam, L, w, id)
+        cut(dev, limit) == IF ~dev /\ d > limit THEN limit ELSE IF d + 1 > StackFrames THEN StackFrames - 1 ELSE d
+    IN CASE w = "rsrc" -> IF ~Dev_RsrcRecursion THEN 0 ELSE IF d > StackFrames THEN StackFrames ELSE d
+         [] w \in {"outl", "toc"} /\ fam = "first" -> cut(Dev_FirstDepth, OutlineDepthLimit)
+         [] w \in {"outl", "toc", "nd"} /\ fam \in {"kids", "kidswide", "pagekids"} -> cut(Dev_KidsDepth, NameTreeDepthLimit)
+         [] OTHER -> 0
 
 -----------------------------------------------------------------------------
 (* Sizes used by the termination variants *)
